@@ -4,6 +4,8 @@ import re
 from . import analysis as A
 from . import roles
 from . import writers as W
+from . import writers_deep as WD
+from . import deep as D
 from .mir import Site, Unverifiable, callee_is, callee_path, const_int, op_fn, op_local, op_place, place_fields
 
 CFGS = {"quick": ["default", "all"], "thorough": ["default", "all", "nodefault", "libtest"]}
@@ -36,11 +38,11 @@ TABLE = {
     ("steps.failed", "+1", "Step", "Failed", "final"): [],
     ("scenarios.failed", "+1", "Step", "Failed", "final"): [],
     ("steps.retried", "+1", "Step", "Failed", "retry"): [],
-    ("scenarios.retried", "+1", "Step", "Failed", "retry"): [r"Option::is_none\(&?.*\)"],
+    ("scenarios.retried", "+1", "Step", "Failed", "retry"): [r"discr\(HashMap::insert\(\.\.\):std::option::Option\)"],
     ("failed_hooks", "+1", "Hook", "Failed", None): [],
-    ("scenarios.failed", "+1", "Hook", "Failed", None): [r"discr\(std::option::Option\)", r"discr\(writer::summarize::Indicator\)"],
-    ("scenarios.skipped", "-1", "Hook", "Failed", None): [r"discr\(std::option::Option\)", r"discr\(writer::summarize::Indicator\)"],
-    ("scenarios.passed", "+1", "Scenario", "Finished", None): [r"Not\(.*\)|is_some_and|is_none"],
+    ("scenarios.failed", "+1", "Hook", "Failed", None): [r"discr\(HashMap::get\(\.\.\):std::option::Option\)", r"discr\(writer::summarize::Indicator\)"],
+    ("scenarios.skipped", "-1", "Hook", "Failed", None): [r"discr\(HashMap::get\(\.\.\):std::option::Option\)", r"discr\(writer::summarize::Indicator\)"],
+    ("scenarios.passed", "+1", "Scenario", "Finished", None): [r"discr\(HashMap::(get|remove)\(\.\.\):std::option::Option\)", r"discr\(writer::summarize::Indicator\)"],
 }
 COUNTERS = {"parsing_errors", "features", "rules", "failed_hooks", "steps.passed", "steps.skipped", "steps.failed",
             "steps.retried", "scenarios.passed", "scenarios.skipped", "scenarios.failed", "scenarios.retried"}
@@ -67,17 +69,19 @@ MANDATORY = {
 
 
 def r1(F, R):
-    root, bodies, ws = W.check_counter_table(F, R, SUM, TABLE, COUNTERS)
-    W.check_mandatory(F, R, SUM, ws, MANDATORY)
+    WD.check_counter_table(F, R, SUM, TABLE, COUNTERS)
+    WD.check_mandatory(F, R, SUM, MANDATORY)
     R.floor(36)
 
 
 def r2(F, R):
     root, bodies, ws = summarize_writes(F)
-    for w in ws:
-        ctx = W.context(F, w.body, w.site, bodies, root)
-        st = ctx.get("writer::summarize::State")
-        R.check(st == frozenset(["InProgress"]), f"window/{w.name}{w.op}@{w.site.loc.rsplit(':', 1)[0].rsplit('/', 1)[-1]}:{w.body.short.rsplit('::', 1)[-1]}",
+    for w in WD.table(F, SUM).writes:
+        if w.name not in COUNTERS:
+            continue
+        st = w.ctx.get("writer::summarize::State")
+        ladt, lvar = leaf(w.ctx)
+        R.check(st == frozenset(["InProgress"]), f"window/{w.name}{w.op}@{ladt}::{lvar}",
                 w.site, "counts only while InProgress", f"`{w.name}` is written while state ∈ {sorted(st) if st else 'any'} (replayed events would be counted)")
     he = [b for b in bodies if b.is_coroutine and F.root_fn(b) is root]
     if len(he) != 1:
@@ -128,38 +132,37 @@ def r2(F, R):
 
 
 def r3(F, R):
-    root, bodies, ws = summarize_writes(F)
     n = 0
-    for w in ws:
+    for w in WD.table(F, SUM).writes:
         if w.name != "scenarios.failed" or w.op != "+1":
             continue
-        ctx = W.context(F, w.body, w.site, bodies, root)
+        ctx = w.ctx
         ladt, lvar = leaf(ctx)
         ind = ctx.get("writer::summarize::Indicator")
         inst = f"Summarize/scenarios.failed/{ladt}::{lvar}@{'+'.join(sorted(ind)) if ind else 'None'}"
-        rg = W.retry_guard(F, w.body, w.site)
+        rg = w.rg
         n += 1
         if rg is None:
             R.violation(inst, w.site, f"a scenario is classified `failed` on a {ladt}::{lvar} event without testing whether a retry is "
                         "left: a scenario whose last attempt passes is still counted failed")
         else:
-            R.check(rg[0] == "final" and W.is_canonical_retry_predicate(rg[1]), inst, w.site, "failed only when no retry is left",
+            R.check(rg[0] == "final" and rg[1], inst, w.site, "failed only when no retry is left",
                     f"scenarios.failed is incremented on the {rg[0]} edge")
     R.floor(3)
 
 
 def r4(F, R):
-    root, bodies, ws = summarize_writes(F)
-    for w in ws:
+    """scenarios.retried is incremented only on a path where marking the scenario (HashMap::insert) found it unmarked."""
+    n = 0
+    for w in WD.table(F, SUM).writes:
         if w.name != "scenarios.retried":
             continue
+        n += 1
+        p = w.row.p
         ok = False
-        for g in A.guards_of(w.body, w.site):
-            d = g.cond_def()
-            if d and d[0] == "call" and callee_is(d[2], r"Option::<.*>::is_none$") and g.polarity() is True:
-                sl = A.slice_back(w.body, [d[2]["args"][0]])
-                if sl.has_call(r"HashMap::<.*>::insert$", r"HashMap.*::insert$"):
-                    ok = True
+        for (a, o), pos in zip(p.conds, p.cond_pos):
+            if pos <= w.idx and a[0] == "discr" and o == "None" and a[1][0] == "call" and re.search(r"HashMap(::<.*>)?::insert$", a[1][1]):
+                ok = True
         R.check(ok, "retried-once", w.site, "scenarios.retried += 1 only if the insert returned None",
                 "scenarios.retried can be incremented for a scenario that is already marked (counted more than once)")
     R.floor(1)
@@ -167,47 +170,59 @@ def r4(F, R):
 
 def r5(F, R):
     """The per-scenario marker is cleared when the scenario's LAST step passed: the "is this the last step" test must
-    identify the step itself (whole-Step equality or its position), not just some attribute that other steps may share."""
-    root, bodies = W.handler_bodies(F, SUM)
+    identify the step itself (whole-Step equality or its position), not just some attribute that other steps may share.
+    Decided on the handler's path table: a HashMap::remove effect under Step::Passed needs the conditions
+    `scenario.steps.last()` is Some and `last == step` (PartialEq of gherkin::Step, or equal positions)."""
+    T = WD.table(F, SUM)
     n = 0
-    for b in bodies:
-        for s, t in b.calls(lambda t: callee_is(t, r"HashMap::<.*>::remove$")):
-            ctx = W.context(F, b, s, bodies, root)
-            if ctx.get("event::Step") != frozenset(["Passed"]):
+    sites = set()
+    for r in T.rows:
+        if r.ctx.get("event::Step") != frozenset(["Passed"]):
+            continue
+        p = r.p
+        for idx, e in enumerate(p.effects):
+            if not (e[0] == "call" and re.search(r"HashMap(::<.*>)?::remove$", e[1])):
                 continue
-            n += 1
+            sites.add(e[3])
             ok, why = False, "the marker removal in the Step::Passed arm is not guarded by a last-step test"
-            for g in A.guards_of(b, s):
-                d = g.cond_def()
-                if not (d and d[0] == "call" and callee_is(d[2], r"Option::<.*>::(is_some|is_some_and)$") and g.polarity() is True):
+            last_t = None
+            for (a, o), pos in zip(p.conds, p.cond_pos):
+                if pos > idx:
                     continue
-                x = A.canon_place(b, {"l": op_local(d[2]["args"][0]), "p": ["*"]})
-                fsd = b.single_def(x["l"]) if not x["p"] else None
-                if not (fsd and fsd[1] == "call" and callee_is(fsd[2], r"Option::<.*>::filter$")):
-                    continue
-                recv = A.slice_back(b, [fsd[2]["args"][0]])
-                if not (recv.has_call(r"slice::<impl \[.*\]>::last$", r"::last$") and ("gherkin::Scenario", "steps") in recv.fields):
-                    why = "the tested element is not `scenario.steps.last()`"
-                    continue
-                kb = A.closure_of_operand(F, b, fsd[2]["args"][1])
-                if kb is None:
-                    continue
-                sd = kb.single_def(0)
-                if sd and sd[1] == "call" and callee_is(sd[2], r"PartialEq.*::eq$"):
-                    selfty = (op_fn(sd[2]["func"]) or {}).get("self", "")
+                if a[0] == "discr" and o == "Some" and D.mentions(a[1], lambda x: x[0] == "call" and re.search(r"::last$", x[1])):
+                    last_t = a[1]
+                if a[0] == "call" and o is True and re.search(r"::eq$", a[1]):
+                    f = T.deep.call_info.get(a[3], {})
+                    selfty = f.get("self", "")
                     if re.fullmatch(r"&*gherkin::Step", selfty):
-                        ok = True
+                        ok = last_t is not None
+                        if not ok:
+                            why = "the tested element is not `scenario.steps.last()`"
                     else:
                         why = f"the last-step test compares `{selfty}` values, which different steps of a scenario may share"
-                elif sd and sd[1] == "assign" and sd[2]["rv"]["k"] == "bin" and sd[2]["rv"]["op"] == "Eq":
-                    fa = place_fields(A.canon_place(kb, op_place(sd[2]["rv"]["a"]))) if op_place(sd[2]["rv"]["a"]) else []
-                    ok = any(n2 == "position" for _, n2 in fa)
-                    if not ok:
-                        why = f"the last-step test compares {[n2 for _, n2 in fa]} only"
-            R.check(ok, "marker-cleared-on-last-step-only", s, "remove(..) iff steps.last() == this step (whole-Step equality)", why +
+                if a[0] == "bin" and a[1] == "Eq" and o is True:
+                    names = _field_names(T, a)
+                    if "position" in names and last_t is not None:
+                        ok = True
+                    elif last_t is not None:
+                        why = f"the last-step test compares {sorted(names)} only"
+            R.check(ok, "marker-cleared-on-last-step-only", T.site_of(e[3]), "remove(..) iff steps.last() == this step (whole-Step equality)", why +
                     ": an earlier step can clear the scenario's retried/failed marker, so the scenario is counted again")
-    R.check(n == 1, "marker-removal-site", root, "", f"{n} marker removals in the Step::Passed arm")
+    n = len(sites)
+    R.check(n == 1, "marker-removal-site", T.root, "", f"{n} marker removals in the Step::Passed arm")
     R.floor(2)
+
+
+def _field_names(T, atom):
+    """Names of gherkin::Step fields read in a comparison atom (by index in the ADT)."""
+    a = T.F.adts.get(("gherkin", "gherkin::Step")) or T.F.adts.get(("cucumber", "gherkin::Step"))
+    out = set()
+    for x in D.subterms(atom):
+        if x[0] == "field" and isinstance(x[2], int) and a:
+            fs = a["variants"][0]["fields"]
+            if x[2] < len(fs):
+                out.add(fs[x[2]]["name"])
+    return out
 
 
 RULES = [("R5", r5, None), ("R1", r1, None), ("R2", r2, None), ("R3", r3, None), ("R4", r4, None)]
